@@ -90,7 +90,7 @@ func emitWire(o *hlib.Out, kind string, cfgs []cfgIn, h int64, t0 *types.Transac
 	_, dout := driverVerdict(p)
 	impl := safeCheck(d, h)
 	o.Emit(kind, true,
-		hlib.App("CWire", coqDrivers(), hlib.Z(h), coqTx(t0), w.term(), pairAlt(t0, p), hxc(sunk), hxc(unk),
+		hlib.App("CWire", coqDrivers(), coqAddrIDs(), hlib.Z(h), coqTx(t0), w.term(), pairAlt(t0, p), hxc(sunk), hxc(unk),
 			optSame(plain, reenc), optSame(plain, cenc), optSame(plain, ctenc),
 			hlib.Bool(hashPlain), hlib.Bool(fullPlain), hlib.Bool(cloneOK), hlib.N(uint64(dout)), hlib.N(uint64(impl))),
 		in,
@@ -141,7 +141,7 @@ func emitResign(o *hlib.Out, kind string, cfgs []cfgIn, h int64, drv string, key
 	_, dout := driverVerdict(p)
 	impl := safeCheck(d, h)
 	o.Emit(kind, true,
-		hlib.App("CResign", coqDrivers(), hlib.Z(h), coqTx(p), hxc(sunk), hxc(unk), hlib.Z(int64(ty)),
+		hlib.App("CResign", coqDrivers(), coqAddrIDs(), hlib.Z(h), coqTx(p), hxc(sunk), hxc(unk), hlib.Z(int64(ty)),
 			optSame(plainMsg, rec.msg), hlib.N(uint64(dout)), hlib.N(uint64(impl))),
 		in, map[string]interface{}{"signed": hlib.HexS(rec.msg), "checksign": impl, "driver_validate": dout, "unknown": hlib.HexS(unk)})
 }
